@@ -5,9 +5,11 @@
 
      ROOT --f--> IMM   --lit--> LIT   --m--> M1 (rw link)   --romut--> M2 (read-only link)
           --sub--> SUB (rw link)      --rosub--> D2 (read-only link)   --d2rw--> D2 (rw link to the same directory)
+          --idir--> ID (immutable directory)
      SUB  --f--> SF    --m--> M3
      D2   --f--> DF    --m--> M4 (rw link)    --d--> D3 (rw link)
      D3   --f--> XF
+     ID   --f--> IMM
 
    A request names a start capability [obj, auth] (auth = write | read | verify: the kind of cap put in the URL),
    a path of child names, an operation (method + t=) and its arguments.  Authority is computed the way capabilities
@@ -25,8 +27,8 @@
 EXTENDS Integers, Sequences, FiniteSets, TLC, Json, IOUtils, SequencesExt
 
 (* ---- the tree --------------------------------------------------------------------------------------- *)
-Objs == {"ROOT", "SUB", "D2", "D3", "IMM", "LIT", "SF", "DF", "XF", "M1", "M2", "M3", "M4", "SPARE"}
-Kind == [o \in Objs |-> CASE o \in {"ROOT", "SUB", "D2", "D3"} -> "dir"
+Objs == {"ROOT", "SUB", "D2", "D3", "ID", "IMM", "LIT", "SF", "DF", "XF", "M1", "M2", "M3", "M4", "SPARE"}
+Kind == [o \in Objs |-> CASE o \in {"ROOT", "SUB", "D2", "D3", "ID"} -> "dir"
                           [] o \in {"M1", "M2", "M3", "M4", "SPARE"} -> "mut"
                           [] OTHER -> "imm"]
 L(p, n, c, a) == [parent |-> p, name |-> n, child |-> c, auth |-> a]
@@ -35,13 +37,15 @@ Links == {L("ROOT", "f", "IMM", "read"), L("ROOT", "lit", "LIT", "read"), L("ROO
           L("ROOT", "d2rw", "D2", "write"),
           L("SUB", "f", "SF", "read"), L("SUB", "m", "M3", "write"),
           L("D2", "f", "DF", "read"), L("D2", "m", "M4", "write"), L("D2", "d", "D3", "write"),
-          L("D3", "f", "XF", "read")}
+          L("D3", "f", "XF", "read"),
+          L("ROOT", "idir", "ID", "read"), L("ID", "f", "IMM", "read")}
 
 Rank == [none |-> 0, verify |-> 1, read |-> 2, write |-> 3]
 MinL(a, b) == IF Rank[a] <= Rank[b] THEN a ELSE b
 MaxL(a, b) == IF Rank[a] >= Rank[b] THEN a ELSE b
 \* what the kind of object admits
-Clip(o, a) == IF Kind[o] = "imm" THEN MinL(a, "read") ELSE a
+Immutable(o) == Kind[o] = "imm" \/ o = "ID"
+Clip(o, a) == IF Immutable(o) THEN MinL(a, "read") ELSE a
 
 HasLink(p, n) == \E l \in Links : l.parent = p /\ l.name = n
 Link(p, n) == CHOOSE l \in Links : l.parent = p /\ l.name = n
@@ -78,7 +82,7 @@ GrantAll(caps) ==
 
 (* ---- requests ------------------------------------------------------------------------------------------ *)
 Starts == {Cap("ROOT", "write"), Cap("ROOT", "read"), Cap("ROOT", "verify"),
-           Cap("D2", "read"), Cap("D2", "write"), Cap("SUB", "write"),
+           Cap("D2", "read"), Cap("D2", "write"), Cap("SUB", "write"), Cap("ID", "read"),
            Cap("M1", "write"), Cap("M1", "read"), Cap("M1", "verify"), Cap("M3", "read"), Cap("M3", "write")}
 
 DirPaths(o) == {p \in PathsFrom(o, 3) : Kind[Resolve(Cap(o, "write"), p).obj] = "dir"}
